@@ -24,6 +24,8 @@ pub const DEEP_LINE: u64 = 960;
 pub const FORSUB_LINE: u64 = 850;
 /// A subroutine that consists of its RETURN only.
 pub const STUB_LINE: u64 = 870;
+/// A recursion that calls a function at every depth (the frame stack is shared).
+pub const FNSUB_LINE: u64 = 980;
 
 fn p(items: Vec<PItem>) -> Stmt {
     Stmt::Print(items)
@@ -219,6 +221,8 @@ fn extra_templates() -> Vec<(&'static str, T)> {
         ("GOSUB deep", T::S(Stmt::Gosub(DEEP_LINE))),
         ("GOSUB forsub", T::S(Stmt::Gosub(FORSUB_LINE))),
         ("GOSUB stub", T::S(Stmt::Gosub(STUB_LINE))),
+        ("GOSUB fnsub", T::S(Stmt::Gosub(FNSUB_LINE))),
+        ("PRINT X,", T::S(p(vec![PItem::E(var("X")), PItem::Comma]))),
         ("IF X=0 THEN PRINT 1/0", T::S(Stmt::If(bin(Eq, var("X"), num(0.0)), br(pe(bin(Div, num(1.0), num(0.0)))), None))),
         (
             "INPUT A(INT(RND(1)*3))",
@@ -262,7 +266,7 @@ pub fn data_menu() -> Vec<(&'static str, T)> {
 
 /// User functions: definition, redefinition, dynamic scoping, failing bodies.
 pub fn fn_menu() -> Vec<(&'static str, T)> {
-    pick(&["DEF FNA(X)=X+Y", "DEF FNB(Y)=FNA(Y)", "DEF FNA(X)=X*2", "DEF FNC(X)=X/0", "Y=3", "X=X+1", "PRINT FNA(2)", "PRINT FNB(1)", "PRINT FNC(1)", "PRINT X;Y", "GOTO first", "DEF FNB(X)=FNA(X+1)+X", "DEF ABS(X)=X*2", "PRINT ABS(0-3);INT(2.5)", "DEF INT(N)=N+100"])
+    pick(&["DEF FNA(X)=X+Y", "DEF FNB(Y)=FNA(Y)", "DEF FNA(X)=X*2", "DEF FNC(X)=X/0", "Y=3", "X=X+1", "PRINT FNA(2)", "PRINT FNB(1)", "PRINT FNC(1)", "PRINT X;Y", "GOTO first", "DEF FNB(X)=FNA(X+1)+X", "DEF ABS(X)=X*2", "PRINT ABS(0-3);INT(2.5)", "DEF INT(N)=N+100", "GOSUB fnsub"])
 }
 
 /// Arrays: explicit and implicit dimensioning, strides, subscript errors.
@@ -288,7 +292,7 @@ pub fn forvar_menu() -> Vec<(&'static str, T)> {
 /// Values on their way to text: signed zero, fractions, large and small magnitudes, numeric DATA
 /// items read into a string variable.
 pub fn values_menu() -> Vec<(&'static str, T)> {
-    pick(&["X=X+1", "X=X-1", "PRINT -X;X*-3", "PRINT X/3;X*1E20;X/1E7", "DATA -0,1000,.5,1E20", "READ Y$", "READ X", "PRINT Y$;X;"])
+    pick(&["X=X+1", "X=X-1", "PRINT -X;X*-3", "PRINT X/3;X*1E20;X/1E7", "DATA -0,1000,.5,1E20", "READ Y$", "READ X", "PRINT Y$;X;", "PRINT X,"])
 }
 
 /// Statements that execute nothing (REM, DATA) between ones that do: what one call steps over.
@@ -328,6 +332,7 @@ pub fn layout(seq: &[T], joins: u32) -> ProgramAst {
     let mut uses_deep = false;
     let mut uses_forsub = false;
     let mut uses_stub = false;
+    let mut uses_fnsub = false;
     for (i, t) in seq.iter().enumerate() {
         let stmt = match t {
             T::S(s) => s.clone(),
@@ -349,6 +354,9 @@ pub fn layout(seq: &[T], joins: u32) -> ProgramAst {
         }
         if refs_line(&stmt, STUB_LINE) {
             uses_stub = true;
+        }
+        if refs_line(&stmt, FNSUB_LINE) {
+            uses_fnsub = true;
         }
         prog.entry(line_of[i]).or_default().push(stmt);
     }
@@ -391,6 +399,10 @@ pub fn layout(seq: &[T], joins: u32) -> ProgramAst {
     if uses_stub {
         prog.insert(STUB_LINE - 5, vec![Stmt::End]);
         prog.insert(STUB_LINE, vec![Stmt::Return]);
+    }
+    if uses_fnsub {
+        prog.insert(FNSUB_LINE - 1, vec![Stmt::End]);
+        prog.insert(FNSUB_LINE, vec![Stmt::Print(vec![PItem::E(call("FNA", vec![num(1.0)])), PItem::Semi]), Stmt::Gosub(FNSUB_LINE)]);
     }
     if uses_deep {
         prog.insert(955, vec![Stmt::End]);
